@@ -18,7 +18,8 @@ LEVEL = "model_checking"
 RULE = ("E3: BFS over all event sequences up to depth D (inject copy of key k in {(P1,m),(P2,m),(P3,m),(P1,m+1)} or, for slow handlers, of a "
         "fast request (P1,m+2) on the token of (P1,m), fire next "
         "timer, jump to first arrival + EXCHANGE_LIFETIME -/+ 1 ms, ACK the separate response) per (handler kind, CON/NON, "
-        "server initial MID) scenario, dedup on model + dedup table + piggyback table + timers + handler counters")
+        "server initial MID) scenario, and behind three long prefixes (duplicate inside the lifetime, re-use after the expiry, the moment anything "
+        "armed by the old duplicate is due), dedup on model + dedup table + piggyback table + timers + handler counters")
 ASSUMPTIONS = [
     "EXCHANGE_LIFETIME = 247 s computed from RFC 7252 defaults inside the model (not read from the library)",
     "exact ties with the expiry instant are not explored (epsilon = 1 ms)",
@@ -228,11 +229,31 @@ def canon(st):
     return core.digest(k)
 
 
+# long prefixes (the BFS continues behind them): a duplicate inside the first lifetime, the same (endpoint, ID) used again after the
+# expiry, then a moment at which anything armed by the old duplicate has come due while the new entry's lifetime still runs
+PREFIXES = {
+    "dup-mid": (("copy", 0), ("jump", "mid"), ("copy", 0), ("jump", "after"), ("copy", 0), ("jump", "mid")),
+    "dup-late": (("copy", 0), ("jump", "before"), ("copy", 0), ("jump", "after"), ("copy", 0), ("jump", "before")),
+    "two-peers": (("copy", 0), ("copy", 1), ("jump", "mid"), ("copy", 1), ("jump", "after"), ("copy", 0), ("copy", 1)),
+}
+
+
 def job(arg):
-    kind, con, mid0, depth = arg
+    kind, con, mid0, depth = arg[:4]
+    prefix = PREFIXES[arg[4]] if len(arg) > 4 else ()
     res = Result()
-    build = make_build(kind, con, mid0)
-    name = "S-DUP-%s-%s-mid0=%#x" % (kind, "CON" if con else "NON", mid0)
+    build0 = make_build(kind, con, mid0)
+    name = "S-DUP-%s-%s-mid0=%#x%s" % (kind, "CON" if con else "NON", mid0, ("-prefix=" + arg[4]) if prefix else "")
+
+    def build(hist):
+        return build0(tuple(prefix) + tuple(hist))
+    if prefix:
+        st0 = build(())
+        for v in st0.violations:
+            v["case"] = core.jsonable({"kind": kind, "con": con, "mid0": mid0, "hist": [list(e) for e in prefix]})
+            v["scenario"] = name
+            res.violate(v)
+        st0.world.dispose()
 
     def events(st):
         e = events_of(st)
@@ -242,7 +263,7 @@ def job(arg):
     def check(hist, st):
         out = []
         for v in st.last:
-            v["case"] = core.jsonable({"kind": kind, "con": con, "mid0": mid0, "hist": [list(e) for e in hist]})
+            v["case"] = core.jsonable({"kind": kind, "con": con, "mid0": mid0, "hist": [list(e) for e in tuple(prefix) + tuple(hist)]})
             v["scenario"] = name
             v["trace"] = st.world.trace[-40:]
             out.append(v)
@@ -268,6 +289,10 @@ def run(tier, seed, jobs):
                 else:
                     d = 6 if con else 5
                 work.append((kind, con, mid0, d))
+    for kind in ("fast", "slow") if tier == "quick" else KINDS:
+        for con in (True, False):
+            for pname in PREFIXES:
+                work.append((kind, con, 0x7000, 2 if tier == "quick" else 3, pname))
     return core.prun(job, work, jobs)
 
 
